@@ -5,3 +5,4 @@
 Definition fixed_F02 : bool := true.    (* bound / membership failures counted under fix|update *)
 Definition fixed_F17 : bool := true.    (* triple_quote: final quote not escaped twice *)
 Definition fixed_F04 : bool := true.    (* unused externals removed only when trim itself is given *)
+Definition fixed_F05 : bool := true.    (* sorted() result of a set only used when it is a strict chain *)
